@@ -415,7 +415,7 @@ func (g *structGen) genStruct(depth int) (desc.T, desc.V) {
 
 // containerField draws a nested struct in one of the supported wrappers.
 func (g *structGen) containerField(name string, depth int) (desc.F, desc.V) {
-	shape := rapid.SampledFrom([]string{"struct", "ptr", "ptr", "slice", "sliceptr", "array", "map", "mapptr", "mapint", "ptrptr"}).Draw(g.t, "shape")
+	shape := rapid.SampledFrom([]string{"struct", "ptr", "ptr", "slice", "sliceptr", "array", "map", "mapptr", "mapint", "ptrptr", "sliceptrptr", "mapptrptr", "arrayptrptr"}).Draw(g.t, "shape")
 	inner, _ := g.genStruct(depth + 1)
 	// values are drawn per element below, against the same inner type: rules of
 	// the inner type were drawn relative to the first value only, which keeps
@@ -474,6 +474,36 @@ func (g *structGen) containerField(name string, depth int) (desc.F, desc.V) {
 				v.E = append(v.E, desc.V{})
 			} else {
 				v.E = append(v.E, mkVal())
+			}
+		}
+	case "sliceptrptr", "mapptrptr", "arrayptrptr":
+		// collections whose elements are pointers to pointers to structs
+		pp := desc.Ptr(desc.Ptr(inner))
+		switch shape {
+		case "sliceptrptr":
+			ty = desc.Slice(pp)
+		case "arrayptrptr":
+			ty = desc.Array(2, pp)
+		default:
+			ty = desc.Map(desc.Scalar("string"), pp)
+		}
+		n := rapid.IntRange(1, 3).Draw(g.t, "nPP")
+		if shape == "arrayptrptr" {
+			n = 2
+		}
+		for i := 0; i < n; i++ {
+			var e desc.V
+			switch rapid.IntRange(0, 4).Draw(g.t, "ppElem") {
+			case 0:
+				e = desc.V{Nil: true}
+			case 1:
+				e = desc.V{E: []desc.V{{Nil: true}}}
+			default:
+				e = desc.V{E: []desc.V{{E: []desc.V{mkVal()}}}}
+			}
+			v.E = append(v.E, e)
+			if shape == "mapptrptr" {
+				v.K = append(v.K, desc.Str(fmt.Sprintf("k%d", i)))
 			}
 		}
 	default: // maps
